@@ -145,6 +145,10 @@ class HistGen:
         n = r.choice(v.net_nodes())
         mt, ct, model, nif = r.choice(NIC_MODELS if r.random() < 0.8 else PLAIN_MODELS)
         s = {'op': 'add_component', 'node': n[2], 'name': self.fresh_name('c')}
+        others = [c[2] for m in v.net_nodes() if m[0] != n[0] for c in v.components(m[0])
+                  if c[2] not in [x[2] for x in v.components(n[0])] and len(c[2]) < 40]
+        if others and r.random() < 0.3:
+            s['name'] = r.choice(others)      # same component (hence child interface) names on another node
         if r.random() < 0.6:
             s['model_type'] = mt
         else:
@@ -302,7 +306,8 @@ class HistGen:
         r = self.rng
         if valid:
             return self.s_add_component(v, kw=self.kw()[0])
-        faults = ['bad_prop', 'bad_name', 'unknown_model', 'no_spec', 'dup_id']
+        faults = ['bad_prop', 'bad_name', 'unknown_model', 'no_spec', 'dup_id',
+                  'derived_ns_name_taken', 'derived_ns_name_taken', 'derived_names_other_node', 'derived_if_name_taken']
         if any(v.components(n[0]) for n in v.net_nodes()):
             faults += ['dup_name', 'dup_name']
         if self.sub:
@@ -322,6 +327,47 @@ class HistGen:
             s.pop('model', None)
         elif ft == 'dup_id':
             s['node_id'] = r.choice(list(v.nodes))
+        elif ft in ('derived_ns_name_taken', 'derived_names_other_node', 'derived_if_name_taken'):
+            # the names the catalogue derives for the component's service ('<node>-<comp>-l2ovs') and interfaces
+            # ('<comp>-p<k>') are already used elsewhere in the graph; the library has no rule against that, so
+            # the call is expected to succeed - or, if it does raise, to leave nothing behind
+            s.pop('ctype', None), s.pop('model', None)
+            s['model_type'] = r.choice(NIC_MODELS[:3])[0]
+            if self.sub and 'if_ids' in s:
+                nif = dict((m[0], m[3]) for m in NIC_MODELS)[s['model_type']]
+                s['if_ids'] = [self.nid('ci') for _ in range(nif)]
+                s['if_labels'] = nif
+                s['ns_id'] = s.get('ns_id') or self.nid('cs')
+            cname = 'k%d' % self.k
+            self.k += 1
+            s['name'] = cname
+            if ft == 'derived_ns_name_taken':
+                # a slice-level service with exactly the derived name
+                self.do({'op': 'add_service', 'name': s['node'] + '-' + cname + '-l2ovs', 'nstype': 'L2Bridge', 'ifs': [],
+                         'node_id': ('sid-%d' % self.k) if self.sub else None}, False)
+            elif ft == 'derived_names_other_node':
+                # node 'X-1' with NIC 'k', then node 'X' with NIC '1-k': both derive 'X-1-k-l2ovs'
+                base = 'rk%d' % self.k
+                self.do(self.s_add_node(name=base + '-1', ntype='VM'), False)
+                self.do(self.s_add_node(name=base, ntype='VM'), False)
+                v2 = self.view()
+                first = self.s_add_component(v2, node=base + '-1', name=cname)
+                first.pop('ctype', None), first.pop('model', None)
+                first['model_type'] = s['model_type']
+                if self.sub:
+                    nif = dict((m[0], m[3]) for m in NIC_MODELS)[s['model_type']]
+                    first['node_id'] = self.nid('c')
+                    first['ns_id'] = self.nid('cs'); first['if_ids'] = [self.nid('ci') for _ in range(nif)]
+                    first['if_labels'] = nif
+                self.do(first, False)
+                s['node'], s['name'] = base, '1-' + cname
+            else:
+                # an interface named '<comp>-p1' on some service
+                refs = self.svc_refs(v)
+                if not refs:
+                    return None
+                self.do({'op': 'add_interface', 'svc': r.choice(refs)[0], 'name': cname + '-p1', 'itype': 'TrunkPort',
+                         'node_id': self.nid('p')}, False)
         elif ft == 'dup_name':
             n = r.choice([n for n in v.net_nodes() if v.components(n[0])])
             s['node'], s['name'] = n[2], r.choice(v.components(n[0]))[2]
@@ -374,6 +420,8 @@ class HistGen:
             faults += ['if_not_owned'] * 2
         if len(free_all) > len(free):
             faults += ['if_long_derived_name'] * 8
+        if free and len(v.of_class('ConnectionPoint')) >= 2:
+            faults += ['if_link_name_taken'] * 3
         ft = r.choice(faults)
         s = self.s_add_service(v, fault=ft)
         if s['ifs'] is None:
@@ -404,6 +452,15 @@ class HistGen:
                 bad = ['saved', r.choice(self.stale)]
             elif ft == 'if_not_owned':
                 bad = ['cp', r.choice(v.service_ports())]
+            elif ft == 'if_link_name_taken':
+                # a link that already carries the name connect_interface derives for this interface
+                n0, cp0 = r.choice(free)
+                bad = ['cp', cp0]
+                other = [c[0] for c in v.of_class('ConnectionPoint') if c[0] != cp0]
+                self.do({'op': 'add_link', 'name': n0[2] + '-' + v.nodes[cp0][2] + '-link', 'ltype': 'L2Path',
+                         'ifs': [['cp', r.choice(other)]], 'node_id': self.nid('l')}, False)
+                v = self.view()
+                good = [x for x in good if x[1] != cp0 and not v.connected(x[1])]
             else:   # if_long_derived_name: an interface whose owner name + '-' + name (+ '-link') exceeds 255
                 bad = ['cp', r.choice([x for x in free_all if x not in free])[1]]
             good = [x for x in good if x != bad or ft == 'if_twice']
@@ -507,7 +564,7 @@ class HistGen:
         if valid:
             return self.s_add_facility()
         faults = ['dup_name', 'bad_name', 'late_bad_ifname', 'late_bad_iflabels', 'late_ns_name_too_long', 'late_bad_nslabels',
-                  'late_bad_kw']
+                  'late_bad_kw', 'late_dup_ifname']
         if v.nodes:
             faults += ['dup_id', 'late_derived_id_collision']
         if self.sub:
@@ -535,6 +592,13 @@ class HistGen:
                 s['interfaces'][pos][0] = r.choice(['', 'y' * 256, 'bad*'])
             else:
                 s['interfaces'][pos][r.choice([1, 2])] = ['raw', 'not-an-object']
+        elif ft == 'late_dup_ifname':
+            m = r.randrange(2, 5)
+            s.pop('kw', None)
+            s['interfaces'] = [[self.fresh_name('fp'), None, None] for _ in range(m)]
+            pos = r.randrange(1, m)
+            s['interfaces'][pos][0] = s['interfaces'][r.randrange(0, pos)][0]
+            s['pos'] = pos
         elif ft == 'late_ns_name_too_long':
             s['name'] = 'F' * r.choice([253, 254, 255])
         elif ft == 'late_bad_nslabels':
@@ -774,7 +838,6 @@ def corpus():
 
 WITNESS_CASES = {
     'C09_add_component_atomic_refuted': 'component_same_child_ids',
-    'C09_add_switch_atomic_refuted': 'switch_late_bad_portlabels',
 }
 
 
